@@ -1,9 +1,11 @@
 (* C17 — Component environments are built only from their declared sources.  Property theorems only.
-   tsub / osexp / fillin (string.Template.safe_substitute, os.path.expandvars, FlowIR.fill_in on a
-   value) are universally quantified: every theorem holds whatever they do to values. *)
+   In the theorems about the construction of the environment tsub / osexp / fillin
+   (string.Template.safe_substitute, os.path.expandvars, FlowIR.fill_in on a value) are universally
+   quantified: they hold whatever these do to values.  The theorems about references inside values
+   are about the executable models Model.tm_sub / Model.os_expand of the first two. *)
 From Coq Require Import String List Bool ZArith.
 Import ListNotations.
-Require Import V.Lib.PyStr V.Env.Model V.Env.Proofs.
+Require Import V.Lib.PyStr V.Env.Model V.Env.Proofs V.Env.Lower V.Env.Subst.
 Open Scope string_scope.
 Open Scope list_scope.
 
@@ -164,15 +166,152 @@ Proof.
 Qed.
 Print Assumptions C17_present.
 
+(* Declared names, for EVERY table that is a dictionary (distinct declared names): what FlowIR.from_dict
+   files under a name m is the environment declared under the last (in declaration order) spelling of
+   m that is not m itself - later spellings overwrite earlier ones and the lower-case spelling - else
+   the environment declared as m when m is lower-case; nothing under names that are not lower-case.
+   (The hypothesis is necessary for the association-list model: C17_declared_spelling_dict_refuted.) *)
+Theorem C17_declared_spelling : forall (E : envtab) (m : string), NoDup (keys E) ->
+  lookup m (lower_names E) =
+  match last_spelling (keys E) m with
+  | Some n => lookup n E
+  | None => if String.eqb (lower m) m then lookup m E else None
+  end.
+Proof. intros E m H. apply declared_spelling. exact H. Qed.
+Print Assumptions C17_declared_spelling.
+
+(* [last_spelling] read as a decomposition of the declaration order *)
+Theorem C17_last_spelling : forall ks m,
+  (forall n, last_spelling ks m = Some n ->
+     exists l1 l2, ks = l1 ++ n :: l2 /\ lower n = m /\ n <> m /\
+                   forall x, In x l2 -> ~ (lower x = m /\ x <> m)) /\
+  (last_spelling ks m = None -> forall x, In x ks -> ~ (lower x = m /\ x <> m)).
+Proof.
+  assert (S1 : forall m x, spells m x = true -> lower x = m /\ x <> m).
+  { intros m x H. unfold spells in H. apply andb_true_iff in H as [H1 H2]. apply String.eqb_eq in H1.
+    apply negb_true_iff in H2. apply String.eqb_neq in H2. split; assumption. }
+  assert (S0 : forall m x, spells m x = false -> ~ (lower x = m /\ x <> m)).
+  { intros m x H [H1 H2]. unfold spells in H. apply String.eqb_eq in H1. apply String.eqb_neq in H2.
+    rewrite H1, H2 in H. discriminate. }
+  intros ks m. split.
+  - intros n H. destruct (last_spelling_split ks m n H) as [l1 [l2 [E [H1 H2]]]].
+    exists l1, l2. destruct (S1 _ _ H1) as [A B]. repeat split; try assumption.
+    intros x Hx. apply S0. apply H2. exact Hx.
+  - intros H x Hx. apply S0. exact (last_spelling_None ks m H x Hx).
+Qed.
+Print Assumptions C17_last_spelling.
+
+(* Each declared environment is filed under the lower-case form of its name: what is held there is the
+   environment declared under some spelling of that name, and the environment itself when no other
+   declared name has the same lower-case form. *)
+Theorem C17_declared_filed : forall (E : envtab) (n : string), NoDup (keys E) -> In n (keys E) ->
+  (exists n', In n' (keys E) /\ lower n' = lower n /\ lookup (lower n) (lower_names E) = lookup n' E) /\
+  ((forall n', In n' (keys E) -> lower n' = lower n -> n' = n) ->
+   lookup (lower n) (lower_names E) = lookup n E).
+Proof.
+  intros E n Hd Hi. split; [apply declared_filed; assumption|apply declared_filed_alone; assumption].
+Qed.
+Print Assumptions C17_declared_filed.
+
+(* The names held after from_dict are exactly the lower-case forms of the declared names, each once. *)
+Theorem C17_declared_held : forall (E : envtab), NoDup (keys E) ->
+  NoDup (keys (lower_names E)) /\
+  forall m, (In m (keys (lower_names E)) <-> exists n, In n (keys E) /\ lower n = m) /\
+            (In m (keys (lower_names E)) -> lower m = m).
+Proof.
+  intros E H. split; [apply NoDup_keys_lower_names; exact H|].
+  intros m. split; [apply held_names; exact H|apply held_lower; exact H].
+Qed.
+Print Assumptions C17_declared_held.
+
 (* Declared names, bounded scope (the bound is in the statement): for every table of at most three
    environments named by spellings from Proofs.spellings that do not collide after lower-casing,
    FlowIR.from_dict files each environment under the lower-case form of its declared name, every held
-   name is lower-case and none is lost.  (Unbounded: lower_names_id, dict_tab_lower in Proofs.v;
-   colliding spellings: correspondence only.) *)
+   name is lower-case and none is lost.  (Kept from the first version; the theorems above cover
+   arbitrary tables, colliding spellings included.) *)
 Theorem C17_declared_spelling_small : forall names,
   In names (lists_upto3 spellings) -> distinct_lower names = true -> found_lower names = true.
 Proof. exact declared_spelling_small. Qed.
 Print Assumptions C17_declared_spelling_small.
+
+(* ---------------------------------------------------------------- references inside values *)
+Open Scope string_scope.     (* from here on ++ is string append *)
+(* string.Template.safe_substitute (Model.tm_sub): ${X} and $X with X an identifier are replaced by
+   the mapping's value, left as written when the mapping has no X; "$$" is an escaped "$". *)
+Theorem C17_template_reference : forall m X post, is_ident X = true ->
+  tm_sub m ("${" ++ X ++ "}" ++ post) =
+    (match lookup X m with Some v => v | None => "${" ++ X ++ "}" end) ++ tm_sub m post /\
+  (ends_name post = true ->
+   tm_sub m ("$" ++ X ++ post) = (match lookup X m with Some v => v | None => "$" ++ X end) ++ tm_sub m post) /\
+  tm_sub m ("$$" ++ post) = "$" ++ tm_sub m post.
+Proof.
+  intros m X post H. split; [apply tm_braced; exact H|]. split; [intros Hp; apply tm_named; assumption|reflexivity].
+Qed.
+Print Assumptions C17_template_reference.
+
+(* posixpath.expandvars (Model.os_expand): ${X} for any X without "}" and $X for a non-empty word X
+   are replaced by the launch value, verbatim, left as written when X is not set; "$$" escapes nothing. *)
+Theorem C17_expandvars_reference : forall m X post,
+  (nobrace X = true ->
+   os_expand m ("${" ++ X ++ "}" ++ post) =
+     (match lookup X m with Some v => v | None => "${" ++ X ++ "}" end) ++ os_expand m post) /\
+  (all_chars id_char X = true -> X <> "" -> ends_name post = true ->
+   os_expand m ("$" ++ X ++ post) = (match lookup X m with Some v => v | None => "$" ++ X end) ++ os_expand m post) /\
+  os_expand m ("$$" ++ post) = "$" ++ os_expand m ("$" ++ post).
+Proof.
+  intros m X post. split; [intros H; apply os_braced; exact H|].
+  split; [intros H1 H2 H3; apply os_named; assumption|reflexivity].
+Qed.
+Print Assumptions C17_expandvars_reference.
+
+(* A value without "$" reaches the task as written: nothing of the launch environment gets into it. *)
+Theorem C17_literal_value : forall env launch v, nodollar v = true -> os_expand launch (tm_sub env v) = v.
+Proof. exact literal_value. Qed.
+Print Assumptions C17_literal_value.
+
+(* Expansion order on a variable of the task environment whose unexpanded value is  pre ${X} post
+   (pre without "$"): X comes from the environment itself when it defines X - its unexpanded value,
+   which expandvars then scans together with the rest; the launch value of X plays no role - else from
+   the launch environment, verbatim; else the reference stays as written. *)
+Theorem C17_reference_order : forall c launch name env k pre X post,
+  NoDup (keys (sysv c)) ->
+  env_with_name tm_sub os_expand c launch name false = Ok env ->
+  lookup k env = Some (pre ++ "${" ++ X ++ "}" ++ post) ->
+  nodollar pre = true -> is_ident X = true ->
+  exists res, env_with_name tm_sub os_expand c launch name true = Ok res /\
+    lookup k res = Some match lookup X env with
+                        | Some v => pre ++ os_expand launch (v ++ tm_sub env post)
+                        | None => pre ++ (match lookup X launch with Some lv => lv | None => "${" ++ X ++ "}" end)
+                                      ++ os_expand launch (tm_sub env post)
+                        end.
+Proof. exact reference_in_env. Qed.
+Print Assumptions C17_reference_order.
+
+(* No other variable of the launch environment appears - neither as a variable nor inside a value:
+   two launch environments under which the same environment is selected and that agree on the names it
+   imports through DEFAULTS, on the four search-path variables (interpreter components only) and on
+   the names os.path.expandvars looks up in its values build the same task environment.  (A launch
+   variable that a value references by name does reach that value without being listed in DEFAULTS -
+   the property's first clause; C17_referenced_launch_variable_refuted shows the third hypothesis is
+   necessary.) *)
+Theorem C17_launch_independence : forall fillin c l l' name interp sel,
+  selected c l name = Ok sel -> selected c l' name = Ok sel ->
+  agree_on (defaults_names (update (sysv c) sel)) l l' ->
+  (interp = true -> agree_on PATH_VARS l l') ->
+  (forall env k v, env_with_name tm_sub os_expand c l name false = Ok env -> In (k, v) env ->
+                   agree_on (os_refs (tm_sub env v)) l l') ->
+  env_with_name tm_sub os_expand c l name false = env_with_name tm_sub os_expand c l' name false /\
+  env_for_node tm_sub os_expand fillin c l name interp = env_for_node tm_sub os_expand fillin c l' name interp.
+Proof. exact launch_independence. Qed.
+Print Assumptions C17_launch_independence.
+
+(* The selection itself does not look at the launch environment, except when nothing is selected and no
+   visible platform declares the default environment. *)
+Theorem C17_selected_launch_free : forall c l l' name,
+  get_environment c "environment" <> ErrUnknown \/ ~ (norm_name name = "" \/ norm_name name = "environment") ->
+  selected c l name = selected c l' name.
+Proof. exact selected_launch_free. Qed.
+Print Assumptions C17_selected_launch_free.
 
 (* non-vacuity: platform p, environment requested as "FOO", declared "Foo" on default and "foo" on p;
    Template/expandvars instantiated by Model.subst *)
@@ -194,4 +333,39 @@ Proof.
       repeat (constructor; [cbn; intuition discriminate|]); constructor.
   - split; [|vm_compute; reflexivity].
     intros [H|[H|H]]; vm_compute in H; discriminate.
+Qed.
+
+(* non-vacuity of the new hypotheses: a table with three spellings of one name (the last declared
+   non-lower-case one wins, also over the lower-case one), two launch environments that differ in a
+   variable the environment neither imports nor references, and a value  x:${LV}:${W}. *)
+Definition ex_tab : envtab := [("Foo", [("A", RStr "1")]); ("foo", [("B", RStr "2")]); ("FOO", [("C", RStr "3")]); ("bar", [])].
+Definition ex_cfg2 : cfg := {| is_default := true; denvs := [("e", [("V", RStr "x:${LV}:${W}"); ("W", RStr "w")])]; penvs := []; sysv := [] |}.
+Definition ex_launch' : map := [("PATH", "/bin"); ("HOME", "/h"); ("LV", "launch"); ("SECRET", "other"); ("PYTHONPATH", "/pp"); ("EXTRA", "x")].
+Example C17_nonvacuous_new :
+  (NoDup (keys ex_tab) /\ last_spelling (keys ex_tab) "foo" = Some "FOO" /\
+   lookup "foo" (lower_names ex_tab) = Some [("C", RStr "3")] /\ keys (lower_names ex_tab) = ["foo"; "bar"]) /\
+  (exists sel, selected ex_cfg ex_launch (Some "FOO") = Ok sel /\ selected ex_cfg ex_launch' (Some "FOO") = Ok sel /\
+     agree_on (defaults_names (update (sysv ex_cfg) sel)) ex_launch ex_launch' /\
+     agree_on PATH_VARS ex_launch ex_launch' /\
+     (forall env k v, env_with_name tm_sub os_expand ex_cfg ex_launch (Some "FOO") false = Ok env -> In (k, v) env ->
+                      agree_on (os_refs (tm_sub env v)) ex_launch ex_launch') /\
+     lookup "SECRET" ex_launch <> lookup "SECRET" ex_launch') /\
+  (exists env, env_with_name tm_sub os_expand ex_cfg2 ex_launch (Some "E") false = Ok env /\
+     NoDup (keys (sysv ex_cfg2)) /\ lookup "V" env = Some ("x:" ++ "${" ++ "LV" ++ "}" ++ ":${W}") /\
+     nodollar "x:" = true /\ is_ident "LV" = true /\ lookup "LV" env = None /\
+     env_with_name tm_sub os_expand ex_cfg2 ex_launch (Some "E") true = Ok [("V", "x:launch:w"); ("W", "w")]).
+Proof.
+  split; [|split; [|eexists; split; [vm_compute; reflexivity|]; split; [constructor|]; vm_compute; repeat split; reflexivity]].
+  - split; [|vm_compute; repeat split; reflexivity].
+    repeat (constructor; [cbn; intuition discriminate|]). constructor.
+  - eexists. split; [vm_compute; reflexivity|]. split; [vm_compute; reflexivity|].
+    split; [|split; [|split]].
+    + intros n Hn. vm_compute in Hn. repeat (destruct Hn as [<-|Hn]; [reflexivity|]). destruct Hn.
+    + intros n Hn. cbn in Hn. repeat (destruct Hn as [<-|Hn]; [reflexivity|]). destruct Hn.
+    + intros env k v He Hin. vm_compute in He. injection He as <-.
+      repeat (destruct Hin as [Hin|Hin];
+              [injection Hin as <- <-; intros n Hn; vm_compute in Hn;
+               repeat (destruct Hn as [<-|Hn]; [reflexivity|]); destruct Hn|]).
+      destruct Hin.
+    + vm_compute. discriminate.
 Qed.
